@@ -1,5 +1,6 @@
 (* C07 — Molecular Hamiltonian MPOs are exact for every orbital count, both build paths; orbital gauge matrices.
-   Only statements, closed by [exact]; proofs in Proofs/MolOpt.v, Proofs/MolWalks.v, Proofs/MolFormulaProofs.v.
+   Only statements, closed by [exact]; proofs in Proofs/MolOpt.v, Proofs/MolWalks.v, Proofs/MolFormulaProofs.v,
+   Proofs/MolAllL1.v .. MolAllL7.v.
    Models: Model/Molecular.v (the OPTIMIZED chain enumerations of molecular_hamiltonian_mpo and
    spin_molecular_hamiltonian_mpo incl. to_spin_opchain, as functions of L and of coefficient functions t, v over any
    cring with an element [half]), Model/MolFormula.v (the second-quantised formula, Jordan-Wigner words, operator table),
@@ -22,25 +23,33 @@
        - the enumerated spinless list: its length, every chain well formed and inside the lattice, the interleaved charges
          are the running particle balance from 0 to 0 (C07_mol_chains_length/_wf/_wf_chains);
        - soundness of the translation validation for ANY graph (C07_den_from_walks, C07_graph_chains_validated,
-         C07_both_paths_agree, C07_spin_both_paths_agree).
-     BOUNDED in L, for all coefficient values over every cring (kernel-evaluated symbolic comparison, vm_compute):
-       - (F1) for L <= 10 (spinless) and L <= 6 (spin): C07_mol_formula_bounded_partial, C07_spin_formula_bounded_partial,
-         C07_mol_opt_formula_partial, C07_spin_mol_opt_formula_partial.
+         C07_both_paths_agree, C07_spin_both_paths_agree);
+       - (F1) COMPLETELY, spinless and spin orbitals (Proofs/MolAllL1-7.v): chain list = second-quantised formula on every
+         word for EVERY L (C07_mol_formula_all_L, C07_spin_formula_all_L; no hypothesis on L, the ring, [half] or the word),
+         via the normal form of Jordan-Wigner products for every mode count (C07_jw_hop_word, C07_jw_int_word: the thirteen
+         relative orders of i < j, k < l, five chain shapes, signs + - - + of the four orderings = the antisymmetrisation
+         [gint]; C07_jw_pauli) and a regrouping of the double sums by unordered pairs; spin orbitals are the spinless
+         statement on 2 L modes with spin-diagonal coefficients, words read through the site pairing (C07_to_spin_word);
+         to_spin_opchain raises on no enumerated chain and every spin chain is well formed, for every L
+         (C07_spin_skels_wf_all_L); hence optimized graph = formula whenever from_opchains returns (C07_mol_opt_formula,
+         C07_spin_mol_opt_formula), and it does return with the proved cover unless all chain coefficients vanish
+         (C07_mol_exact, C07_spin_exact).
+     BOUNDED in L (kept; now subsumed by the all-L theorems), kernel-evaluated symbolic comparison:
+       - C07_mol_formula_bounded_partial (L <= 10), C07_spin_formula_bounded_partial (L <= 6), C07_*_partial below.
    NOT PROVED (correspondence check / implementation-level predicate only):
-       - (F1) for L > 10 resp. L > 6 (the general induction over the relative order of i, j, k, l is not done);
        - (F2): the explicit constructions are not modelled; on every generated case the graph the IMPLEMENTATION builds
          (exact dyadic coefficients; L = 4..7 spinless, 2..5 spin) is checked in Coq by [check_graph_chains] against the
-         model's chain list, which by the theorems below gives consistency and equality of both paths for that input;
-       - for the spin enumeration: that to_spin_opchain never raises and the chains are well formed for every L (kernel
-         evaluated for L <= 6: C07_spin_exact_partial; per case in the harness), hence success of the spin construction
-         beyond that range;
+         model's chain list, which by the theorems below gives consistency and equality of both paths for that input
+         (and, with (F1), equality with the formula for that input);
        - (F3): nothing is proved about the gauge matrices; they are tested by the implementation-level predicate of
          harness/props/c07.py (random unitaries) and, for a family of exact unitaries, by an exact evaluation in Coq of
          the MPO identity (Model/MolGauge.v, per case). *)
 From Coq Require Import ZArith QArith Qcanon List Bool Lia.
 From PT Require Import Base.Scalar Base.BigSum Model.OpGraph Model.FromOpchains Model.GraphMPO
                        Model.Molecular Model.MolFormula Model.MolCheck Model.MolExampleData
-                       Proofs.DenRev_C05 Proofs.MolOpt Proofs.MolWalks Proofs.MolFormulaProofs.
+                       Proofs.DenRev_C05 Proofs.MolOpt Proofs.MolWalks Proofs.MolFormulaProofs
+                       Proofs.MolAllL1 Proofs.MolAllL2 Proofs.MolAllL3 Proofs.MolAllL4 Proofs.MolAllL5 Proofs.MolAllL6
+                       Proofs.MolAllL7.
 (* [cover_model] below is Model/FromOpchains.v's cover computed by the model of bipartite_graph.py (C18) *)
 Import ListNotations.
 Open Scope Z_scope.
@@ -197,6 +206,120 @@ Proof.
 Qed.
 Print Assumptions C07_spin_exact_partial.
 
+(* ---- (b) chain list = second-quantised formula for EVERY L (spinless); Proofs/MolAllL1-3.v ----
+   No hypothesis on L, on the ring, on [half] (both sides carry the same factor) or on the word w. *)
+(* normal form of the Jordan-Wigner products, every mode count n:
+   a+_i a_j is, with sign +, the word of the hopping chain the code enumerates for (i, j) (I..I p Z..Z q I..I, or N) *)
+Theorem C07_jw_hop_word : forall n i j, (i < n)%nat -> (j < n)%nat ->
+  exists u, term2 n i j = Some (false, u) /\ mol_ids u = skel_word n (hop_skel i j).
+Proof. exact term2_word. Qed.
+Print Assumptions C07_jw_hop_word.
+
+(* for a < b, c < d the four orderings (s1 = creators in increasing order, s2 = annihilator indices in increasing order;
+   [term4 n i j k l] is a+_i a+_j a_l a_k) give the SAME word -- the chain the code enumerates for (a, b, c, d): one of the
+   five shapes, thirteen relative orders -- with sign + - - +: the antisymmetrisation behind [gint] *)
+Theorem C07_jw_int_word : forall n a b c d (s1 s2 : bool), (a < b < n)%nat -> (c < d < n)%nat ->
+  exists u, term4 n (if s1 then a else b) (if s1 then b else a) (if s2 then c else d) (if s2 then d else c)
+            = Some (xorb s1 s2, u) /\ mol_ids u = skel_word n (int_skel a b c d).
+Proof. exact term4_word. Qed.
+Print Assumptions C07_jw_int_word.
+
+(* a repeated creator or a repeated annihilator gives the zero operator *)
+Theorem C07_jw_pauli : forall n i j k,  (i < n)%nat -> (j < n)%nat -> (k < n)%nat ->
+  term4 n i i j k = None /\ term4 n i j k k = None.
+Proof. intros n i j k Hi Hj Hk. split; [apply term4_diag12 | apply term4_diag34]; assumption. Qed.
+Print Assumptions C07_jw_pauli.
+
+(* sum_ij t_ij a+_i a_j = the L^2 hopping chains;  1/2 sum_ijkl v_ijkl a+_i a+_j a_l a_k = the interaction chains *)
+Theorem C07_mol_hop_all_L : forall (R : cring) (half : R) t v L w,
+  chains_den L 0 (map (attach (mol_coeff half t v)) (mol_hop_skels L)) w =
+  suml (seq 0 L) (fun i => suml (seq 0 L) (fun j => kmul R (t i j) (sw_coef mol_ids (term2 L i j) w))).
+Proof. exact mol_hop_all_L. Qed.
+Print Assumptions C07_mol_hop_all_L.
+
+Theorem C07_mol_int_all_L : forall (R : cring) (half : R) t v L w,
+  chains_den L 0 (map (attach (mol_coeff half t v)) (mol_int_skels L)) w =
+  kmul R half
+    (suml (seq 0 L) (fun i => suml (seq 0 L) (fun j => suml (seq 0 L) (fun k => suml (seq 0 L) (fun l =>
+       kmul R (v i j k l) (sw_coef mol_ids (term4 L i j k l) w)))))).
+Proof. exact mol_int_all_L. Qed.
+Print Assumptions C07_mol_int_all_L.
+
+Theorem C07_mol_formula_all_L : forall (R : cring) (half : R) t v L w,
+  chains_den L 0 (mol_chains half L t v) w = mol_formula half L t v w.
+Proof. exact mol_formula_all_L. Qed.
+Print Assumptions C07_mol_formula_all_L.
+
+(* (F1), spinless, every L >= 1: whatever graph the model of from_opchains returns denotes the formula ... *)
+Theorem C07_mol_opt_formula : forall (R : cring) (half : R) cover L t v g, (1 <= L)%nat ->
+  from_opchains cover (mol_chains half L t v) L 0 = Ok g ->
+  forall w, den g w = mol_formula half L t v w.
+Proof.
+  intros R half cover L t v g H1 Hg w.
+  rewrite (proj2 (mol_opt_den R half cover L t v g H1 Hg) w). apply mol_formula_all_L.
+Qed.
+Print Assumptions C07_mol_opt_formula.
+
+(* ... and with the proved vertex cover it does return one unless every chain coefficient vanishes (K3) *)
+Theorem C07_mol_exact : forall (R : cring) (half : R) L t v, (1 <= L)%nat ->
+  ((exists i j, (i < L)%nat /\ (j < L)%nat /\ t i j <> k0 R) \/
+   (exists i j k l, (i < j < L)%nat /\ (k < l < L)%nat /\ gint half v i j k l <> k0 R)) ->
+  exists g, from_opchains cover_model (mol_chains half L t v) L 0 = Ok g /\ linked g = true /\
+            forall w, den g w = mol_formula half L t v w.
+Proof.
+  intros R half L t v H1 Hn. destruct (mol_opt_total R half L t v H1 Hn) as [g [Hg [Hl Hd]]].
+  exists g. repeat split; auto. intros w. rewrite Hd. apply mol_formula_all_L.
+Qed.
+Print Assumptions C07_mol_exact.
+
+(* ---- (b) spin orbitals, EVERY L; Proofs/MolAllL4-7.v ---- *)
+(* to_spin_opchain: whenever its model accepts a chain on 2 L modes, the padded site word of the result is the padded mode
+   word with the letters of modes (2 m, 2 m + 1) paired through oid_single_pair_map ([zp]) *)
+Theorem C07_to_spin_word : forall L s s', to_spin_skel s = Ok s' -> (k_istart s + length (k_oids s) <= 2 * L)%nat ->
+  skel_word L s' = zp (skel_word (2 * L) s).
+Proof. exact to_spin_word. Qed.
+Print Assumptions C07_to_spin_word.
+
+(* whenever the enumeration returns a list (no chain makes to_spin_opchain raise), it equals the spin formula *)
+Theorem C07_spin_formula_of_ok : forall (R : cring) (half : R) t v L cs, spin_chains half L t v = Ok cs ->
+  forall w, chains_den L 0 cs w = spin_formula half L t v w.
+Proof. exact spin_formula_all_L. Qed.
+Print Assumptions C07_spin_formula_of_ok.
+
+(* for every L the enumeration raises nowhere (key lookup of every site pair, the three charge assertions) and every
+   resulting chain is well formed: len(qnums) = len(oids) + 1, inside the lattice, padded charges from 0 to 0 *)
+Theorem C07_spin_skels_wf_all_L : forall L,
+  match spin_skels L with Ok sk => forallb (fun st => skel_wfb L (fst st)) sk = true | Err _ => False end.
+Proof.
+  intros L. pose proof (spin_skels_wfb_all L) as H. unfold spin_skels_wfb in H.
+  destruct (spin_skels L); [exact H|discriminate].
+Qed.
+Print Assumptions C07_spin_skels_wf_all_L.
+
+Theorem C07_spin_formula_all_L : forall (R : cring) (half : R) t v L,
+  exists cs, spin_chains half L t v = Ok cs /\ forall w, chains_den L 0 cs w = spin_formula half L t v w.
+Proof. exact spin_formula_total. Qed.
+Print Assumptions C07_spin_formula_all_L.
+
+(* (F1), spin orbitals, every L >= 1: whatever graph the model of from_opchains returns denotes the formula ... *)
+Theorem C07_spin_mol_opt_formula : forall (R : cring) (half : R) cover L t v cs g, (1 <= L)%nat ->
+  spin_chains half L t v = Ok cs -> from_opchains cover cs L 0 = Ok g ->
+  forall w, den g w = spin_formula half L t v w.
+Proof.
+  intros R half cover L t v cs g H1 Hc Hg w.
+  rewrite (proj2 (spin_mol_opt_den R half cover L t v cs g H1 Hc Hg) w). apply (spin_formula_all_L R half t v L cs Hc).
+Qed.
+Print Assumptions C07_spin_mol_opt_formula.
+
+(* ... and with the proved vertex cover it does return one unless every chain coefficient vanishes (K3) *)
+Theorem C07_spin_exact : forall (R : cring) (half : R) L t v, (1 <= L)%nat ->
+  exists cs, spin_chains half L t v = Ok cs /\
+    (forall w, chains_den L 0 cs w = spin_formula half L t v w) /\
+    ((exists c, In c cs /\ c_coeff c <> k0 R) ->
+     exists g, from_opchains cover_model cs L 0 = Ok g /\ linked g = true /\ forall w, den g w = spin_formula half L t v w).
+Proof. exact spin_exact_all_L. Qed.
+Print Assumptions C07_spin_exact.
+
 (* ---- non-vacuity (vm_compute): concrete rational coefficient functions meet every hypothesis ---- *)
 Definition exq (n : Z) (d : positive) : Qc := Q2Qc (Qmake n d).
 Definition ex_half : Qcring := exq 1 2.
@@ -237,4 +360,23 @@ Example C07_nonvacuous_explicit :
   poly_eqb (walks ex4_graph 4 (g_t0 ex4_graph)) (chain_poly 4 0 cs) = true /\
   length (g_edges ex4_graph) = 78%nat /\
   match from_opchains cover_model cs 4 0 with Ok g => linked g = true | Err _ => False end.
+Proof. vm_compute. repeat split; reflexivity. Qed.
+
+(* beyond the formerly bounded range: spinless L = 12, word N at orbitals 1 and 9 (coefficient gint_{1,9,1,9} = -64), and
+   spin orbitals L = 7, both modes of site 1 occupied (letter 17 = N (x) N, coefficient v_1111); exact integer runs over Z with
+   half := 1 (the identities hold for every value of [half]); both sides evaluated independently by the kernel *)
+Definition exz_t (i j : nat) : Zring := Z.of_nat (1 + i + 3 * j).
+Definition exz_v (i j k l : nat) : Zring := Z.of_nat (i * j + 2 * j * k * k + 5 * k + 11 * l * i + 3 * l * l * j) - 9.
+Example C07_nonvacuous_all_L :
+  let w := [0; 2; 0; 0; 0; 0; 0; 0; 0; 2; 0; 0] in
+  chains_den 12 0 (@mol_chains Zring 1 12 exz_t exz_v) w = @mol_formula Zring 1 12 exz_t exz_v w /\
+  (chains_den 12 0 (@mol_chains Zring 1 12 exz_t exz_v) w =? 0) = false.
+Proof. vm_compute. split; reflexivity. Qed.
+Example C07_nonvacuous_spin_all_L :
+  let w := [0; 17; 0; 0; 0; 0; 0] in
+  match @spin_chains Zring 1 7 exz_t exz_v with
+  | Ok cs => chains_den 7 0 cs w = @spin_formula Zring 1 7 exz_t exz_v w /\ (chains_den 7 0 cs w =? 0) = false /\
+             length cs = 3381%nat
+  | Err _ => False
+  end.
 Proof. vm_compute. repeat split; reflexivity. Qed.
